@@ -336,9 +336,84 @@ def in_scratch_directory(fn):
     return wrapped
 
 
+KW_TOK = r"(?P<SPACE>\s+)|(?P<WORD>[a-z0-9]+)"
+
+
+def many_prefix_groups_case(ctx, n_groups=120):
+    """one symbol with more than a hundred groups of alternatives that share a two-symbol prefix (a command language:
+    'k17 <word> a' / 'k17 <word> b' for 120 command words): whatever the parser calls its helper symbols, none of them is
+    in the tree"""
+    keywords = {('WORD', 'k%d' % i): 'K%d' % i for i in range(n_groups)}
+    keywords.update({('WORD', 'a'): 'A', ('WORD', 'b'): 'B'})
+    prods = {'E': [alt for i in range(n_groups) for alt in (('K%d' % i, 'WORD', 'A'), ('K%d' % i, 'WORD', 'B'))]}
+    for smart in (True, False):
+        ctx.evaluated()
+        case = {"kind": "many-prefix-groups", "groups": n_groups, "smart": smart}
+        try:
+            parser = llparser.LLParser(KW_TOK, keywords=dict(keywords), productions={k: list(v) for k, v in prods.items()},
+                                       smart_factorization=smart)
+        except Exception as err:
+            ctx.violation("constructor-raises", {"type": type(err).__name__, "msg": str(err)[:150]}, case)
+            continue
+        for i in (0, 7, 99, 100, 101, n_groups - 1):
+            for last in ('a', 'b'):
+                text = "k%d  w%d %s" % (i, i, last)
+                try:
+                    tree = parser.parse(text, do_cleanup=False)
+                except Exception as err:
+                    ctx.violation("other-exception-on-a-sentence", {"text": text, "type": type(err).__name__,
+                                                                    "msg": str(err)[:150]}, case)
+                    continue
+                ctx.count("sentences_of_a_grammar_with_120_prefix_groups")
+                errs, leaves = llmon.validate_tree(tree, prods, 'E')
+                if errs:
+                    ctx.violation(errs[0][0], errs[:3], dict(case, text=text))
+                if leaves != [('K%d' % i, 'k%d' % i), ('WORD', 'w%d' % i), (last.upper(), last)]:
+                    ctx.violation("leaves-differ-from-tokens", {"leaves": leaves, "text": text}, case)
+
+
+def sequence_backtracking_case(ctx):
+    """a sequence template that is read, given back and read again from a LATER token: 'x a b c end2' first tries
+    P -> X ITEMS END1 (the sequence takes a b c, END1 fails), then P -> X WORD ITEMS END2 (the sequence takes b c)"""
+    keywords = {('WORD', 'x'): 'X', ('WORD', 'end1'): 'END1', ('WORD', 'end2'): 'END2'}
+    seq_alts = [tuple(['WORD'] * k) for k in range(0, 9)]
+    model = {'P': [('X', 'ITEMS', 'END1'), ('X', 'WORD', 'ITEMS', 'END2'), ('X', 'WORD', 'WORD', 'ITEMS', 'END1', 'END2')],
+             'ITEMS': seq_alts}
+    for smart in (True, False):
+        ctx.evaluated()
+        case = {"kind": "sequence-read-again", "smart": smart}
+        try:
+            parser = llparser.LLParser(KW_TOK, keywords=dict(keywords), smart_factorization=smart, start_symbol_name='P',
+                                       productions={'P': list(model['P']), 'ITEMS': llparser.ProdSequence('WORD')})
+        except Exception as err:
+            ctx.violation("constructor-raises", {"type": type(err).__name__, "msg": str(err)[:150]}, case)
+            continue
+        for text in ("x end1", "x a end1", "x a b c end1", "x a end2", "x a b c end2", "x a b c d e end2",
+                     "x a b end1 end2", "x a b c d end1 end2", "x a b c end2", "x a end1"):
+            try:
+                tree = parser.parse(text, do_cleanup=False)
+            except llparser.ParsingError:
+                ctx.count("rejected")       # (an ordered-choice parser may give up on a sentence: not C01's business)
+                continue
+            except Exception as err:
+                ctx.violation("other-exception-on-a-sentence", {"text": text, "type": type(err).__name__,
+                                                                "msg": str(err)[:150]}, case)
+                continue
+            ctx.count("sentences_whose_sequence_is_read_again_from_a_later_token")
+            errs, leaves = llmon.validate_tree(tree, model, 'P')
+            if errs:
+                ctx.violation(errs[0][0], errs[:3], dict(case, text=text))
+            want = [(keywords.get(('WORD', w), 'WORD'), w) for w in text.split()]
+            if leaves != want:
+                ctx.violation("leaves-differ-from-tokens", {"leaves": leaves, "tokens": want, "text": text}, case)
+
+
 @in_scratch_directory
 def run_shard(ctx):
     mon = llmon.ParseMonitor()
+    if ctx.shard == 0:
+        many_prefix_groups_case(ctx)
+    sequence_backtracking_case(ctx)
     try:
         for i in range(ctx.cases):
             rng = ctx.rng(i)
@@ -357,6 +432,12 @@ def run_shard(ctx):
 
 @in_scratch_directory
 def replay(ctx, case):
+    if case.get("kind") == "many-prefix-groups":
+        many_prefix_groups_case(ctx, case["groups"])
+        return
+    if case.get("kind") == "sequence-read-again":
+        sequence_backtracking_case(ctx)
+        return
     mon = llmon.ParseMonitor()
     try:
         prods = {k: [tuple(a) for a in v] for k, v in case["prods"].items()}
